@@ -1,6 +1,7 @@
 package io
 
 import "io"
+import "github.com/ipld/go-car/v2/verifhook"
 
 var (
 	_ io.Writer      = (*OffsetWriteSeeker)(nil)
@@ -19,6 +20,7 @@ func NewOffsetWriter(w io.WriterAt, off int64) *OffsetWriteSeeker {
 
 func (ow *OffsetWriteSeeker) Write(b []byte) (n int, err error) {
 	n, err = ow.w.WriteAt(b, ow.offset)
+	verifhook.OnWrite(ow.w, ow.offset, b, n, err)
 	ow.offset += int64(n)
 	return
 }
